@@ -48,12 +48,16 @@ def singular(ks):
             s += ('.' + k) if qn is None else ('[' + qn + ']')
         else: s += '[' + integer() + ']'
     return s
+QPAT = ['a']
 def fn(ks, d, kind):
     if kind == 'value':
         f = rnd.choice(['length','count','value'])
         if f == 'length': return 'length(' + ws() + rnd.choice([singular(ks), strl(), fquery(ks, d+1, True)]) + ws() + ')'
         return f + '(' + fquery(ks, d+1, rnd.random()<0.8) + ')'
-    f = rnd.choice(['in','nin','any_of','none_of','subset_of','foo'])
+    f = rnd.choice(['in','nin','any_of','none_of','subset_of','foo','match','search','match','search'])
+    if f in ('match', 'search'):
+        # one pattern per query (QPAT), so that the same text can occur under `match` and under `search` of one evaluation
+        return f + '(' + rnd.choice([singular(ks), singular(ks), '@', strl()]) + ws() + ',' + ws() + "'" + QPAT[0] + "'" + ')'
     return f + '(' + rnd.choice([singular(ks), lit(), fquery(ks,d+1,True)]) + ws() + ',' + ws() + rnd.choice([singular(ks), '$', fquery(ks,d+1,False)]) + ')'
 def comparable(ks, d):
     r = rnd.random()
@@ -93,12 +97,14 @@ def fquery(ks, d, rel):
     return s
 def deep(d):
     """wrap a small document in many container levels: behaviour must not change with nesting depth"""
-    k = rnd.choice([5, 20, 50, 63, 64, 65, 70, 80])
+    k = rnd.choice([5, 20, 31, 32, 33, 50, 63, 64, 65, 70, 80, 100, 127, 128, 129, 130, 200, 255, 256, 257, 300])
     for i in range(k):
-        d = [d] if rnd.random() < 0.7 else ({'a': d} if rnd.random() < 0.7 else [0, d])
+        # beyond serde_json's own nesting limit the harness rebuilds the outer levels in code: those are single-child containers
+        d = [d] if rnd.random() < 0.7 else ({'a': d} if rnd.random() < 0.7 or i >= 50 else [0, d])
     return d
 for _ in range(N):
     d = doc()
+    QPAT[0] = rnd.choice(['a', 'b', 'ab', 'a.*', '[ab]+', 'b|a', '.', 'é', 'a?b', 'a b', '1'])
     if rnd.random() < 0.03:
         d = deep(rnd.choice([[{"id": 1}, {"id": 2}, {"id": 3}], {"a": {"b": 1}, "c": {"b": 2}, "b": 3}, [[1, 2], [3, [4, 5]]], d]))
         q = rnd.choice(['$..id', '$..b', '$..*', '$..[0]', '$..[*]', '$..[?@.id]', "$..['a']", '$..[-1]', '$..[::-1]', '$..a..b'])
